@@ -1263,10 +1263,17 @@ class ReprStructure:
 
     def remove_columns(self, columns_names):
         """Remove specified column from self"""
+        break_by_removed = any(
+            c.break_by for c in self.columns if c.name in columns_names)
         self.columns = [
             c for c in self.columns
             if c.name not in columns_names
         ]
+        if break_by_removed:
+            # break lines are gone, so other records may become visible:
+            # widths of columns are to be detected again
+            for c in self.columns:
+                c.width = None
 
     def make_record_ch_chunks_all(self, record, cp) -> [[CHText.Chunk]]:
         """Create intermediate data for the record's text representation.
